@@ -482,6 +482,29 @@ func bidEntries() []Entry {
 			},
 			Changed: []string{"extBidConvCancelled"}, FinalHas: []string{"extBidConvCancelled", "extBidConvExpired"}, FinalLacks: []string{"extBidConvActive"},
 		},
+		{
+			// the mirror image: the long-lived conversation is cancelled one block BEFORE the short-lived one's
+			// deadline passes, so the closing transaction is the last bid handler that ran before the expiry hooks
+			// meet a due conversation. With this history the failure-atomicity check has a closing transaction to
+			// replace by a late-failing copy (modes instead/*) right in front of an expiry. (Added after a seeded
+			// change - the same reordering in CloseBidConv, now met through a closing transaction whose fee step
+			// FAILS: the session is rolled back, the store's prefix cursor is not - escaped that check.)
+			Scenario: &harness.Scenario{
+				Kind:  bid_action.BID_CANCEL.String(),
+				Note:  "multi-cancel-one-conversation-right-before-another-one-expires",
+				World: func() *harness.World { return harness.NewWorld("bid-cancel-before-expiry", 4, 3) },
+				Prefix: func(w *harness.World) []harness.BlockSpec {
+					bs, _ := bidOpen(w, 40)
+					return append(bs, blk(BidCreate("", w.Users[0].Addr, bidDomain, bid_data.BidAssetOns, w.Users[2], olt(25), bidDeadline(w, 7), "bid2")))
+				},
+				Target: func(w *harness.World) *harness.TxSpec {
+					_, id := bidOpen(w, 40)
+					return BidCancel(id, w.Users[1], "cancel")
+				},
+				After: 5,
+			},
+			Changed: []string{"extBidConvCancelled"}, FinalHas: []string{"extBidConvCancelled", "extBidConvExpired"}, FinalLacks: []string{"extBidConvActive"},
+		},
 		bidScenario(bid_action.BID_CONTER_OFFER, "counter-offer", nil, func(w *harness.World, id bid_data.BidConvId) *harness.TxSpec {
 			return BidCounterOffer(id, w.Users[0], olt(30), "counter")
 		}, 1, Entry{Changed: []string{"extBidOffer_ACTIVE", "extBidOffer_INACTIVE"}}),
